@@ -265,7 +265,11 @@ def check_F3(ctx, facts, cfg):
 
 
 def check_F4(ctx, facts, cfg):
-    hm = [b for b in facts.bodies.values() if b.crate == 'datacake_rpc' and b.kind == 'coroutine' and b.name.startswith('datacake_rpc::net::server::handle_message')]
+    # the server half, by interpretation of one request (server_abs): reply unchanged with OK, error status / unknown-service status sent
+    # as the serialisation of that very status with a non-OK code; the structural clauses below are the fallback
+    import server_abs
+    server_sem = server_abs.check_dispatch(ctx, facts, 'C12.SEM', cfg + '|')
+    hm = [] if server_sem else [b for b in facts.bodies.values() if b.crate == 'datacake_rpc' and b.kind == 'coroutine' and b.name.startswith('datacake_rpc::net::server::handle_message')]
     for b in hm:
         flow = Flow(b)
         calls = list(b.calls())
@@ -278,7 +282,7 @@ def check_F4(ctx, facts, cfg):
         ctx.ob('C12.F4', cfg + '|server-error-to-status-frame', bool(good), site(b),
                'handler Err(status) is answered with create_bad_request(&status) on the error edge only' if good else 'handler errors are not turned into a status frame')
     cb = facts.body('datacake_rpc::net::server::create_bad_request')
-    if cb is not None:
+    if cb is not None and not server_sem:
         calls = list(cb.calls())
         ser = any(cname(t) == RK + 'to_view_bytes' for _b, t in calls)
         # non-OK status code constant
